@@ -246,6 +246,99 @@ static std::string exec(World &w, const std::vector<std::string> &a) {
     else w.assign_move(g, functions::parameter<Tensor>(w.P(p)));
     return "ok";
   }
+  // ---- the public Device entry points, called directly on pool tensors
+  if ((op == "diadd" || op == "disub") && n == 3) {
+    const std::uint32_t h = vh::to_u32(a[1]), g = vh::to_u32(a[2]);
+    if (!w.has(h) || !w.has(g)) return "noobj";
+    if (op == "diadd") w.dev->inplace_add(w.T(g), w.T(h)); else w.dev->inplace_subtract(w.T(g), w.T(h));
+    return "ok";
+  }
+  if (op == "dimul" && n == 3) {
+    const std::uint32_t h = vh::to_u32(a[1]);
+    const float k = static_cast<float>(to_int(a[2]));
+    if (!w.has(h)) return "noobj";
+    w.dev->inplace_multiply_const(k, w.T(h));
+    return "ok";
+  }
+  if (op == "dslice_bw" && n == 5) {
+    const std::uint32_t gy = vh::to_u32(a[1]), dim = vh::to_u32(a[2]), off = vh::to_u32(a[3]), gx = vh::to_u32(a[4]);
+    if (!w.has(gy) || !w.has(gx)) return "noobj";
+    if (gy == gx) return "alias";
+    w.dev->slice_bw(w.T(gy), dim, off, w.T(gx));
+    return "ok";
+  }
+  if (op == "dpick_bw" && n == 5) {
+    const std::uint32_t gy = vh::to_u32(a[1]), dim = vh::to_u32(a[2]), gx = vh::to_u32(a[4]);
+    if (a[3].size() < 2 || a[3][0] != 'I' || a[3][1] != ':') throw BadOp();
+    const std::vector<std::uint32_t> ids = vh::csv_u32(a[3].substr(2));
+    if (!w.has(gy) || !w.has(gx)) return "noobj";
+    if (gy == gx) return "alias";
+    w.dev->pick_bw(w.T(gy), ids, dim, w.T(gx));
+    return "ok";
+  }
+  if (op == "dflip_bw" && n == 4) {
+    const std::uint32_t gy = vh::to_u32(a[1]), dim = vh::to_u32(a[2]), gx = vh::to_u32(a[3]);
+    if (!w.has(gy) || !w.has(gx)) return "noobj";
+    if (gy == gx) return "alias";
+    w.dev->flip_bw(w.T(gy), dim, w.T(gx));
+    return "ok";
+  }
+  if (op == "dtranspose_bw" && n == 3) {
+    const std::uint32_t gy = vh::to_u32(a[1]), gx = vh::to_u32(a[2]);
+    if (!w.has(gy) || !w.has(gx)) return "noobj";
+    if (gy == gx) return "alias";
+    // x and y only contribute their shapes: x := gx, y := gy
+    w.dev->transpose_bw(w.T(gx), w.T(gy), w.T(gy), w.T(gx));
+    return "ok";
+  }
+  if ((op == "dadd_bw" || op == "dsub_bw") && n == 4) {
+    const std::uint32_t gy = vh::to_u32(a[1]), ga = vh::to_u32(a[2]), gb = vh::to_u32(a[3]);
+    if (!w.has(gy) || !w.has(ga) || !w.has(gb)) return "noobj";
+    if (gy == ga || gy == gb || ga == gb) return "alias";
+    // a, b, y only contribute their shapes: a := ga, b := gb, y := gy
+    if (op == "dadd_bw") w.dev->add_bw(w.T(ga), w.T(gb), w.T(gy), w.T(gy), w.T(ga), w.T(gb));
+    else w.dev->subtract_bw(w.T(ga), w.T(gb), w.T(gy), w.T(gy), w.T(ga), w.T(gb));
+    return "ok";
+  }
+  if (op == "piadd_grad" && n == 3) {
+    const std::uint32_t p = vh::to_u32(a[1]), g = vh::to_u32(a[2]);
+    if (!w.has(g)) return "noobj";
+    w.dev->inplace_add(w.T(g), w.P(p).gradient());
+    return "ok";
+  }
+  // ---- primitiv::functions on a single operand
+  if ((op == "fcopy" || op == "fpositive" || op == "fbconcat1") && n == 3) {
+    const std::uint32_t h = vh::to_u32(a[1]), g = vh::to_u32(a[2]);
+    if (!w.has(h)) return "noobj";
+    if (op == "fcopy") w.assign_move(g, functions::copy(w.T(h), w.dev));
+    else if (op == "fpositive") w.assign_move(g, functions::positive(w.T(h)));
+    else {
+      const std::vector<const Tensor *> xs{&w.T(h)};
+      w.assign_move(g, functions::batch::concat(xs));
+    }
+    return "ok";
+  }
+  if (op == "fconcat1" && n == 4) {
+    const std::uint32_t h = vh::to_u32(a[1]), g = vh::to_u32(a[2]), dim = vh::to_u32(a[3]);
+    if (!w.has(h)) return "noobj";
+    const std::vector<const Tensor *> xs{&w.T(h)};
+    w.assign_move(g, functions::concat(xs, dim));
+    return "ok";
+  }
+  if (op == "probe" && n == 3) {
+    const std::string &fn = a[1];
+    const std::uint32_t h = vh::to_u32(a[2]);
+    if (fn != "sum0" && fn != "add" && fn != "matmul" && fn != "bsum" && fn != "tofloat" && fn != "argmax0") throw BadOp();
+    if (!w.has(h)) return "noobj";
+    const Tensor &x = w.T(h);
+    if (fn == "sum0") { Tensor r = functions::sum(x, 0); }
+    else if (fn == "add") { Tensor r = x + x; }
+    else if (fn == "matmul") { Tensor r = functions::matmul(x, x); }
+    else if (fn == "bsum") { Tensor r = functions::batch::sum(x); }
+    else if (fn == "tofloat") { volatile float r = x.to_float(); (void)r; }
+    else { std::vector<std::uint32_t> r = x.argmax(0); }
+    return "ok";
+  }
   if (op == "pdrop" && n == 2) {
     w.ps.erase(vh::to_u32(a[1]));
     return "ok";
